@@ -20,6 +20,7 @@ import socket
 import subprocess
 import sys
 import tempfile
+import threading
 import time
 
 import vlib
@@ -351,3 +352,50 @@ class Client:
             except OSError:
                 pass
             self.s = None
+
+
+def wait_for(cond, timeout, step=0.05):
+    t0 = time.time()
+    while time.time() - t0 < timeout:
+        v = cond()
+        if v:
+            return v
+        time.sleep(step)
+    return cond()
+
+
+class Load(threading.Thread):
+    """clients connecting all the time: every response must be complete, no connection may be refused"""
+
+    def __init__(self, srv, period=0.04, d=0.05):
+        threading.Thread.__init__(self)
+        self.srv, self.period, self.d = srv, period, d
+        self.stop_flag = False
+        self.results = []          # (t, ok, detail, pid, ppid-of-worker)
+        self.errors = []
+
+    def run(self):
+        while not self.stop_flag:
+            t = time.time()
+            c = Client(self.srv, timeout=10).connect()
+            if c.err:
+                self.errors.append((t, c.err))
+            else:
+                c.send(Client.request(d=self.d))
+                r = c.read_response(10)
+                ok = r["status"] == 200 and r["complete"]
+                ppid = None
+                for kv in (r.get("body") or b"").split(b";"):
+                    if kv.startswith(b"ppid="):
+                        ppid = int(kv[5:])
+                self.results.append((t, ok, r["status"], r["pid"], ppid, r.get("marker")))
+                if not ok:
+                    self.errors.append((t, "incomplete response: status %r, %d bytes, client error %r" % (r["status"], r["raw_len"], c.err)))
+                c.close()
+            time.sleep(self.period)
+
+    def finish(self):
+        self.stop_flag = True
+        self.join(15)
+
+
